@@ -98,18 +98,36 @@ def solved_problem_roundtrip(ctx):
     sgn = -1.0 if maximize else 1.0
     ds = DesignSpace()
     ds.add_variable("x", size=dim, lower_bound=-2.0, upper_bound=2.0, value=array([0.0] * dim))
-    p = OptimizationProblem(ds)
-    p.objective = MDOFunction(lambda x: sgn * float(x @ x), "f", jac=lambda x: sgn * 2 * x, expr="x.x", input_names=["x"])
-    p.add_constraint(MDOFunction(lambda x: array([x[0] - 1.0, x.sum()]), "g", jac=lambda x: np.vstack([np.eye(dim)[0], np.ones(dim)])), constraint_type="ineq")
-    if with_eq:
-        p.add_constraint(MDOFunction(lambda x: array([x[0] - x[-1]]), "h", jac=lambda x: (np.eye(dim)[0] - np.eye(dim)[-1])[None, :]), constraint_type="eq")
-    if with_obs:
-        p.add_observable(MDOFunction(lambda x: array([3.0 * x[0]]), "o", jac=lambda x: 3.0 * np.eye(dim)[:1]))
+    linear = t.flag(0.3, "linear_problem")
+    if linear:
+        # a linear program: every function is an MDOLinearFunction and the problem is flagged linear
+        from gemseo.core.mdo_functions.mdo_linear_function import MDOLinearFunction
+
+        p = OptimizationProblem(ds, is_linear=True)
+        p.objective = MDOLinearFunction(sgn * np.arange(1.0, dim + 1.0), "f", value_at_zero=np.array([0.0]))
+        p.add_constraint(MDOLinearFunction(np.vstack([np.eye(dim)[0], np.ones(dim)]), "g", value_at_zero=np.array([-1.0, 0.0])), constraint_type="ineq")
+        if with_eq:
+            p.add_constraint(MDOLinearFunction((np.eye(dim)[0] - np.eye(dim)[-1])[None, :], "h"), constraint_type="eq")
+        if with_obs:
+            p.add_observable(MDOLinearFunction(3.0 * np.eye(dim)[:1], "o"))
+    else:
+        p = OptimizationProblem(ds)
+        p.objective = MDOFunction(lambda x: sgn * float(x @ x), "f", jac=lambda x: sgn * 2 * x, expr="x.x", input_names=["x"])
+        p.add_constraint(MDOFunction(lambda x: array([x[0] - 1.0, x.sum()]), "g", jac=lambda x: np.vstack([np.eye(dim)[0], np.ones(dim)])), constraint_type="ineq")
+        if with_eq:
+            p.add_constraint(MDOFunction(lambda x: array([x[0] - x[-1]]), "h", jac=lambda x: (np.eye(dim)[0] - np.eye(dim)[-1])[None, :]), constraint_type="eq")
+        if with_obs:
+            p.add_observable(MDOFunction(lambda x: array([3.0 * x[0]]), "o", jac=lambda x: 3.0 * np.eye(dim)[:1]))
+    if t.flag(0.3, "non_default_settings"):
+        p.tolerances.inequality = 1e-3
+        p.tolerances.equality = 5e-3
+        p.differentiation_method = p.DifferentiationMethod.FINITE_DIFFERENCES
+        p.differentiation_step = 1e-5
     if maximize:
         p.minimize_objective = False
     DOELibraryFactory().execute(p, algo_name="CustomDOE", samples=array(pts), eval_jac=eval_jac)
     path = str(ctx.scratch / "problem.h5")
-    cfg = {"family": "solved problem round trip", "maximize": maximize, "dim": dim, "points": pts, "equality": with_eq, "observable": with_obs, "eval_jac": eval_jac, "node": node}
+    cfg = {"family": "solved problem round trip", "maximize": maximize, "dim": dim, "points": pts, "equality": with_eq, "observable": with_obs, "eval_jac": eval_jac, "node": node, "linear": bool(linear)}
     ctx.event("cfg", canon(cfg))
     sig = "problem.to_hdf/from_hdf content"
     try:
@@ -136,6 +154,11 @@ def solved_problem_roundtrip(ctx):
             return a == b
 
     diffs = []
+    for attr in ("is_linear", "differentiation_method", "differentiation_step"):
+        if getattr(q, attr) != getattr(p, attr):
+            diffs.append(f"{attr} {getattr(p, attr)!r} -> {getattr(q, attr)!r}")
+    if (q.tolerances.equality, q.tolerances.inequality) != (p.tolerances.equality, p.tolerances.inequality):
+        diffs.append(f"tolerances {p.tolerances} -> {q.tolerances}")
     if q.minimize_objective != p.minimize_objective:
         diffs.append(f"minimize_objective {p.minimize_objective} -> {q.minimize_objective}")
     for attr in ("name", "expr", "f_type", "dim"):
@@ -343,10 +366,19 @@ def run(ctx):
     n_append_after_export = 0
     sig = "problem.to_hdf" if via_problem else "database.to_hdf"
 
+    # with complex-step differentiation the design space is complex and the database holds points of complex dtype next
+    # to float ones (the same numbers under both dtypes are two entries)
+    complex_pts = not int_pts and not via_problem and t.flag(0.15, "complex_points")
+    if complex_pts:
+        ctx.probe("history_with_complex_points")
+
     def new_point(i):
         if int_pts:
             return array([t.randint(-5, 5, f"p{i}[{j}]") for j in range(dim)])
-        return array([t.randint(-8, 8, f"p{i}[{j}]") / 4.0 for j in range(dim)])
+        x = array([t.randint(-8, 8, f"p{i}[{j}]") / 4.0 for j in range(dim)])
+        if complex_pts and t.flag(0.5, f"p{i}.complex"):
+            return x.astype(complex)
+        return x
 
     def key_of(x):
         return (str(x.dtype.kind), tuple(x.tolist()))
@@ -404,7 +436,7 @@ def run(ctx):
                     continue
                 n_more = t.randint(1, len(missing), "n_more")
                 outs = {n: gen_value(t, f"v{i}.{n}") for n in missing[:n_more]}
-                x = array(key[1], dtype=int if key[0] == "i" else float)
+                x = array(key[1], dtype={"i": int, "c": complex}.get(key[0], float))
                 ops.append(("store_more", x.tolist(), {n: canon_value(v) for n, v in outs.items()}))
                 db.store(x, dict(outs))
                 model[key].update(outs)
